@@ -530,6 +530,7 @@ class Emitter:
                 labels[bn] = l
             seen[l] = bn
         self.cur_f = f
+        self.cur_defs = {ins.res: ins for b in f.blocks for ins in b.instrs if ins.res is not None}
         self.cur_labels = labels
         self.cur_phis = phis
         self.cur_decls = decls
@@ -546,7 +547,9 @@ class Emitter:
             out.append('%sgoto %s;' % (indent, labels[to]))
             return out
 
-        for bi, b in enumerate(f.blocks):
+        order = self.rpo(f) if self.opts.get('rpo') else list(f.blocks)
+        self.cur_order = {b.name: i for i, b in enumerate(order)}
+        for bi, b in enumerate(order):
             lines.append('%s: ;' % labels[b.name])
             for ins in phis.get(b.name, []):
                 r = self._local(f, ins.res)
@@ -559,10 +562,52 @@ class Emitter:
         hdr = '%s %s(%s)' % (self.cty(f.ret), cname, ', '.join(ps) or 'void')
         return '%s {\n  %s\n%s\n}' % (hdr, '\n  '.join(decls), '\n'.join(lines))
 
+    def rpo(self, f):
+        """blocks in reverse post-order: only genuine back edges become backward gotos (CBMC then resets the unwinding
+        counter of an inner loop whenever it is left)"""
+        succ = {}
+        for b in f.blocks:
+            t = b.instrs[-1] if b.instrs else None
+            out = []
+            if t is not None:
+                if t.op == 'br':
+                    out = [t.extra['dest']]
+                elif t.op == 'condbr':
+                    out = [t.extra['t'], t.extra['f']]
+                elif t.op == 'switch':
+                    out = [t.extra['default']] + [l for _, l in t.extra['cases']]
+                elif t.op == 'invoke':
+                    out = [t.extra['normal'], t.extra['unwind']]
+            succ[b.name] = out
+        seen = set()
+        order = []
+        stack = [(f.blocks[0].name, iter(succ[f.blocks[0].name]))]
+        seen.add(f.blocks[0].name)
+        while stack:
+            name, it = stack[-1]
+            adv = False
+            for s_ in it:
+                if s_ not in seen and s_ in f.bmap:
+                    seen.add(s_)
+                    stack.append((s_, iter(succ[s_])))
+                    adv = True
+                    break
+            if not adv:
+                order.append(name)
+                stack.pop()
+        order.reverse()
+        blocks = [f.bmap[n] for n in order]
+        blocks += [b for b in f.blocks if b.name not in seen]
+        return blocks
+
     def assign(self, f, ins, expr, lines, decls):
         r = self._local(f, ins.res)
         decls.append('%s %s;' % (self.cty(ins.ty), r))
         lines.append('  %s = %s;' % (r, expr))
+        if self.opts.get('trace') and ins.op != 'ptrtoint' and ins.ty.kind in ('int', 'float') and (ins.ty.kind != 'int' or ins.ty.bits <= 64):
+            self.trace_id = getattr(self, 'trace_id', 0) + 1
+            conv = 'verif_d2u((double)%s)' % r if ins.ty.kind == 'float' else '((uint64_t)%s)' % r
+            lines.append('  VERIF_TR(%d, %s); /* %s line %d */' % (self.trace_id, conv, ins.op, ins.line))
 
     def instr(self, f, b, ins, lines, decls, edge):
         op = ins.op
@@ -572,6 +617,14 @@ class Emitter:
                    'udiv': '/', 'urem': '%'}[op]
             t = ins.ty
             ct = self.cty(t)
+            if op == 'sub' and t.bits == 64:
+                # pointer difference idiom: sub (ptrtoint p), (ptrtoint q) -> C pointer subtraction (same-object offsets;
+                # avoids CBMC's expensive pointer-to-integer encoding)
+                da = self.cur_defs.get(ins.ops[0].v) if ins.ops[0].kind == 'local' else None
+                db = self.cur_defs.get(ins.ops[1].v) if ins.ops[1].kind == 'local' else None
+                if da is not None and db is not None and da.op == 'ptrtoint' and db.op == 'ptrtoint':
+                    self.assign(f, ins, '((uint64_t)((uint8_t*)%s - (uint8_t*)%s))' % (cv(da.ops[0]), cv(db.ops[0])), lines, decls)
+                    return
             a, bb = cv(ins.ops[0]), cv(ins.ops[1])
             if op in ('shl', 'lshr') and self.is_nonstd_int(t):
                 e = '((%s) %s (%s))' % (a, sym, bb)
@@ -701,6 +754,25 @@ class Emitter:
             lines += edge(b.name, ins.extra['dest'])
             return
         if op == 'condbr':
+            t, fl = ins.extra['t'], ins.extra['f']
+            if t != fl and self.opts.get('cond_backedges'):
+                # phi temporaries of both successors are assigned unconditionally (SSA: incoming values dominate the end of
+                # this block), so that the BACKWARD goto can be the conditional one: CBMC resets a loop's unwinding counter
+                # only when its backward goto is not taken
+                et = edge(b.name, t)
+                ef = edge(b.name, fl)
+                lines += et[:-1] + ef[:-1]
+                pos = self.cur_order
+                back_t = pos.get(t, 1 << 30) <= pos.get(b.name, 0)
+                back_f = pos.get(fl, 1 << 30) <= pos.get(b.name, 0)
+                c = cv(ins.ops[0])
+                if back_f and not back_t:
+                    lines.append('  if (!(%s)) %s' % (c, ef[-1].strip()))
+                    lines.append(et[-1])
+                else:
+                    lines.append('  if (%s) %s' % (c, et[-1].strip()))
+                    lines.append(ef[-1])
+                return
             lines.append('  if (%s) {' % cv(ins.ops[0]))
             lines += edge(b.name, ins.extra['t'], '    ')
             lines.append('  } else {')
@@ -797,6 +869,12 @@ class Emitter:
             return
         if tag == 'verif':
             a = [cv(x) for x in args]
+            if name == 'verif_assert':
+                label = self.const_string(args[1])
+                if label is not None:
+                    lines.append('  VERIF_ASSERT_L(%s, "VERIF-OBLIGATION: %s");' % (a[0], re.sub(r'[^A-Za-z0-9 _.,:;=<>()+*/\[\]\'!?|&%%^~#@-]', '_', label)))
+                    finish()
+                    return
             if name.startswith('verif_nondet') or name in ('verif_assert', 'verif_reach'):
                 # names are string constants: pass through as pointer
                 pass
@@ -857,6 +935,100 @@ class Emitter:
             lines.append('  %s;' % expr)
         finish()
 
+    def leaf_paths(self, t, prefix, out):
+        if len(out) > 64:
+            return
+        if t.kind == 'struct':
+            d = self.L.struct_def(t)
+            for i, ft in enumerate(d.fields):
+                self.leaf_paths(ft, '%s.f%d' % (prefix, i), out)
+        elif t.kind == 'array':
+            for i in range(t.n):
+                self.leaf_paths(t.elem, '%s.a[%d]' % (prefix, i), out)
+                if len(out) > 64:
+                    return
+        else:
+            out.append(prefix)
+
+    def const_string(self, v):
+        if v.kind == 'cexpr' and v.v in ('getelementptr', 'bitcast') and v.args[0].kind == 'global':
+            g = self.m.globals.get(v.args[0].v)
+            if g is not None and g.init is not None and g.init.kind == 'cstr':
+                return g.init.v.split(b'\0')[0].decode('latin1')
+        if v.kind == 'global':
+            g = self.m.globals.get(v.v)
+            if g is not None and g.init is not None and g.init.kind == 'cstr':
+                return g.init.v.split(b'\0')[0].decode('latin1')
+        return None
+
+    def typed_fill(self, out, lv, t, lo, hi, byte):
+        """assignments setting bytes [lo,hi) (relative to the start of lvalue `lv` of type t) to `byte`; False if a scalar
+        would be covered only partially"""
+        size = self.L.size(t)
+        if hi <= 0 or lo >= size:
+            return True
+        full = lo <= 0 and hi >= size
+        k = t.kind
+        if k in ('int', 'float', 'ptr'):
+            if not full:
+                return False
+            if k == 'int':
+                val = 0
+                for i in range(size):
+                    val |= byte << (8 * i)
+                val &= (1 << t.bits) - 1 if t.bits < 8 * size else (1 << (8 * size)) - 1
+                out.append('  %s = %s;' % (lv, self.cval(Val('int', t, val))))
+            elif byte == 0:
+                out.append('  %s = %s;' % (lv, '0.0' if k == 'float' else '((%s)0)' % self.cty(t)))
+            else:
+                return False
+            return True
+        if k == 'struct':
+            d = self.L.struct_def(t)
+            if full and byte == 0:
+                out.append('  %s = (%s){0};' % (lv, self.cty(t)))
+                return True
+            for i, ft in enumerate(d.fields):
+                fo = self.L.field_offset(t, i)
+                if not self.typed_fill(out, '%s.f%d' % (lv, i), ft, lo - fo, hi - fo, byte):
+                    return False
+            return True
+        if k == 'array':
+            if full and byte == 0:
+                out.append('  %s = (%s){0};' % (lv, self.cty(t)))
+                return True
+            es = self.L.size(t.elem)
+            if t.n > 4096:
+                return False
+            for i in range(t.n):
+                if (i + 1) * es <= lo or i * es >= hi:
+                    continue
+                if not self.typed_fill(out, '%s.a[%d]' % (lv, i), t.elem, lo - i * es, hi - i * es, byte):
+                    return False
+            return True
+        return False
+
+    def typed_src(self, v):
+        """(value, pointee type) looking through bitcasts / zero-index GEPs to the typed origin of an i8* operand"""
+        seen = 0
+        t = v.ty.elem if v.ty.kind == 'ptr' else None
+        while seen < 8:
+            seen += 1
+            if v.kind == 'local':
+                d = self.cur_defs.get(v.v)
+                if d is not None and d.op == 'bitcast' and d.ops[0].ty.kind == 'ptr':
+                    v = d.ops[0]
+                    t = v.ty.elem
+                    continue
+            elif v.kind == 'cexpr' and v.v == 'bitcast' and v.args[0].ty.kind == 'ptr':
+                v = v.args[0]
+                t = v.ty.elem
+                continue
+            break
+        if t is not None and t.kind == 'int' and t.bits == 8:
+            return v, None
+        return v, t
+
     def need_func_if_defined(self, name):
         fn = self.m.functions.get(name)
         if fn is not None and not fn.is_decl:
@@ -874,9 +1046,55 @@ class Emitter:
             self.assign(f, ins, '((%s)0)' % self.cty(ins.ty), lines, decls)
             return
         if base in ('memcpy', 'memmove'):
+            n = args[2]
+            if n.kind == 'int':
+                td, ts = self.typed_src(args[0]), self.typed_src(args[1])
+                for (pv, pt) in (td, ts):
+                    if pt is None or pt.kind not in ('struct', 'array', 'int', 'float', 'ptr'):
+                        continue
+                    try:
+                        sz = self.L.size(pt)
+                    except Exception:
+                        continue
+                    if sz and n.v % sz == 0 and n.v > 0:
+                        k = n.v // sz
+                        at = pt if k == 1 else llir.ArrTy(k, pt)
+                        ct = self.cty(at)
+                        leaves = []
+                        self.leaf_paths(at, '', leaves)
+                        if self.opts.get('memcpy_fieldwise', True) and 0 < len(leaves) <= 64:
+                            lines.append('  { %s *verif_d = (%s*)%s; %s *verif_s = (%s*)%s; /* field-wise memcpy %d */' % (ct, ct, cv(args[0]), ct, ct, cv(args[1]), n.v))
+                            for lp in leaves:
+                                lines.append('    (*verif_d)%s = (*verif_s)%s;' % (lp, lp))
+                            lines.append('  }')
+                        else:
+                            lines.append('  *(%s*)%s = *(%s*)%s; /* typed memcpy %d */' % (ct, cv(args[0]), ct, cv(args[1]), n.v))
+                        return
             lines.append('  %s(%s, %s, %s);' % (base, cv(args[0]), cv(args[1]), cv(args[2])))
             return
         if base == 'memset':
+            n = args[2]
+            if n.kind == 'int' and args[1].kind == 'int' and n.v > 0:
+                pv, pt = self.typed_src(args[0])
+                if pt is not None and pt.kind in ('struct', 'array', 'int', 'float', 'ptr'):
+                    out = []
+                    try:
+                        # the region may span several consecutive elements of the pointee type
+                        sz = self.L.size(pt)
+                        k = 0
+                        ok = sz > 0
+                        while ok and k * sz < n.v:
+                            lv = '((%s*)%s)[%d]' % (self.cty(pt), cv(args[0]), k)
+                            ok = self.typed_fill(out, lv, pt, 0, min(sz, n.v - k * sz), args[1].v)
+                            k += 1
+                            if k > 64:
+                                ok = False
+                    except Unsupported:
+                        ok = False
+                    if ok:
+                        lines.append('  /* typed memset %d bytes of %d */' % (n.v, args[1].v))
+                        lines.extend(out)
+                        return
             lines.append('  memset(%s, %s, %s);' % (cv(args[0]), cv(args[1]), cv(args[2])))
             return
         if base == 'assume':
